@@ -22,7 +22,8 @@ PLAN = {
     },
     "C05": {
         "quick": [S("hook-default"), S("m3-none", tag="tables")],
-        "thorough": [S("hook-default"), S("m3-none", tag="tables"), S("m4-embedded-min", tag="min")],
+        "thorough": [S("hook-default"), S("m3-none", tag="tables"), S("m4-embedded-min", tag="min"),
+                     S("t-dec-half-nosimdhex", tag="half"), S("t-dec-quarter-nosimdhex", tag="quarter"), S("t-dec-min-simdparse", tag="min-simd")],
     },
     "C06": {
         "quick": [S("hook-default")],
